@@ -2,6 +2,7 @@
 From Coq Require Import List String Bool.
 Import ListNotations.
 From NV Require Import Types.SigDefs Gen.PrimopSig Gen.PrimopDyn Types.SigSound.
+From NV Require Import Types.Syntax Types.Sem Types.Decl Types.LogRel Types.Safety Types.ModelSig Types.ModelSigSound Types.Examples.
 
 (* T0, translator-tied: static primop types (real typechecker) vs observed run-time dispatch (real
    interpreter), for every primop outside the listed internal label/contract/sealing operations
@@ -14,3 +15,28 @@ Theorem C01_sig_sound_generated :
               /\ (forall c, In c d.(d_errs) -> bad_class r.(s_name) c = false)
               /\ (forall k, In k d.(d_kinds) -> inhabits k r.(s_res) = true).
 Proof. exact sig_sound_generated_lemma. Qed.
+
+(* T0, type safety of the fragment (Types/Syntax.v, Decl.v, Sem.v): for every signature table whose
+   primitives inhabit the semantic interpretation of their declared types, no program accepted by
+   the declarative type system raises -- at any fuel, under deep evaluation -- a dynamic type error
+   (wrong operand kind, non-function applied, missing field, non-exhaustive match, unbound
+   identifier) whose failing redex lies in typed code. *)
+Theorem C01_type_safety : forall Sg, sig_sound Sg ->
+  forall n e T, has_type Sg [] e T -> safe_outcome (run n e).
+Proof. exact type_safety_lemma. Qed.
+
+(* the hypothesis is satisfiable: the model's own table (which mirrors operation.rs / std.ncl and is
+   compared with the generated static table) is sound ... *)
+Theorem C01_model_sig_sound : sig_sound model_sig.
+Proof. exact model_sig_sound. Qed.
+
+(* ... hence the property for the concrete model *)
+Theorem C01_type_safety_model : forall n e T,
+  has_type model_sig [] e T -> safe_outcome (run n e).
+Proof. exact type_safety_model. Qed.
+
+(* the value of a typed block inhabits the semantic interpretation of its own annotation (so the
+   contract derived from that annotation cannot blame the block) *)
+Theorem C01_typed_result_in_type : forall Sg, sig_sound Sg ->
+  forall n e T v, has_type Sg [] e T -> eval n MTyped [] e = Ok v -> V T [] v.
+Proof. exact typed_result_in_type. Qed.
